@@ -39,6 +39,19 @@ int vf_run_case(Src &s, Report &r) {
 			c.sp.offset = (int)((smin - 0.2 * (s.u8() / 255.0)) * 1e-6 * c.sp.sampling_rate);
 		}
 	}
+	// invalid geometry that must be refused rather than decoded past the image: interlaced storage with unequal field line counts
+	if (c.sp.interlaced && c.sp.count[0] > 1 && s.chance(1, 8)) {
+		vbi_sampling_par bad = c.sp; if (s.chance(1, 2)) bad.count[0] -= 1 + (int) s.pick((uint32_t) bad.count[0] - 1); else bad.count[1] -= 1 + (int) s.pick((uint32_t) bad.count[1] - 1 + 1) % bad.count[1];
+		if (bad.count[0] != bad.count[1] && bad.count[0] > 0 && bad.count[1] > 0) {
+			size_t rows = (size_t) (bad.count[0] + bad.count[1]);
+			uint8_t *im = (uint8_t *) calloc(rows, (size_t) bad.bytes_per_line);
+			vbi3_raw_decoder *rd = vbi3_raw_decoder_new(&bad);
+			if (rd) { vbi_service_set g = vbi3_raw_decoder_add_services(rd, c.requested, 0); vbi_sliced *o = (vbi_sliced *) malloc(sizeof(vbi_sliced) * rows);
+				if (g) vbi3_raw_decoder_decode(rd, o, (unsigned) rows, im);	// ASan judges the reads
+				free(o); vbi3_raw_decoder_delete(rd); }
+			free(im); r.cls("interlaced-with-unequal-field-counts");
+		}
+	}
 	size_t size;
 	uint8_t *img = make_image(c, &size);
 	if (!img) return 2;
@@ -81,6 +94,7 @@ int vf_run_case(Src &s, Report &r) {
 		unsigned max_lines = s.chance(1, 2) ? lines : s.pick(lines + 1);
 		vbi_sliced *out = (vbi_sliced *) malloc(sizeof(vbi_sliced) * (max_lines ? max_lines : 1));
 		unsigned reps = 1 + s.pick(3);	// the decoder adapts its line pattern from frame to frame
+		if (s.chance(1, 16)) reps = 17 + s.pick(32);	// ... and re-examines lines it predicts blank every 16 frames
 		for (unsigned k = 0; k < reps && !rc; ++k) {
 			unsigned n = vbi3_raw_decoder_decode(rd, out, max_lines, raw);
 			if (n > max_lines) rc = r.fail("C05:more-records-than-permitted", "vbi3_raw_decoder_decode returned %u records, max_lines %u", n, max_lines);
